@@ -1,7 +1,7 @@
 /-
 A toy instance of `CodecLaws` (Model/Entity.lean): the hypotheses under which C16 is proved are
 satisfiable, and the model can be evaluated by `decide` on it (non-vacuity examples and the
-witnesses of F61 / F62 in Props/C16.lean).
+witness of F62 and the regression `C16_F61_fixed` in Props/C16.lean).
 -/
 import Restful.Model.Entity
 namespace Restful
@@ -49,8 +49,9 @@ def unzl : Bytes → Option Stream
 def codec : Codec V :=
   { encJson := encJson, encXml := encXml, decJson := decJson, decXml := decXml, gz := gz, zl := zl,
     ungz := ungz, unzl := unzl,
-    gzRead := fun r => ungz r.src,     -- a reader object that obeys the Reset law
-    gzLeft := fun r => r.src }         -- and keeps its last source as residue
+    gzRead := fun r => ungz r.src,     -- a reader object that obeys the Reset law,
+    gzLeft := fun r => r.src,          -- keeps its last source as residue
+    gzEnd := fun r => '$' :: r.residue }   -- and remembers having been read to the end
 
 /-- the hypotheses of C16 are satisfiable -/
 def laws : CodecLaws V :=
@@ -59,9 +60,7 @@ def laws : CodecLaws V :=
     xml_round := by intro p v; cases p <;> cases v <;> rfl
     gz_round := by intro b; simp [codec, gz, ungz]
     zl_round := by intro b; simp [codec, zl, unzl]
-    reset_law := by intro r body; rfl
-    json_dirty := by intro u b h; exact h
-    xml_dirty := by intro b h; exact h }
+    reset_law := by intro r body; rfl }
 
 /-- a reader object that does NOT obey the Reset law: once used, it keeps failing -/
 def stickyCodec : Codec V := { codec with gzRead := fun r => if r.residue.isEmpty then ungz r.src else ⟨[], false⟩ }
